@@ -41,7 +41,7 @@ def harnesses(tier, seed):
 def run(tier, seed):
     hs = harnesses(tier, seed)
     return runner.run_property(
-        "C20", hs, tier, seed, 240 if tier == "quick" else 600,
+        "C20", hs, tier, seed, 420 if tier == "quick" else 900,
         bounds={"cube": "3^3 x 2^5 = 864 configurations per type family", "families": len(KINDS), "build_sequence": 3,
                 "ref_prefix": "'#/x' + symbolic tail, len <= 2", "doc_keyword_groups": 4},
         assumptions=ASSUMPTIONS,
